@@ -8,6 +8,7 @@ import (
 	"verif/harness/internal/devx"
 	"verif/harness/internal/ev"
 	"verif/harness/internal/obs"
+	"verif/harness/internal/sched"
 	"verif/harness/internal/world"
 )
 
@@ -219,6 +220,9 @@ func init() { Registry["C08"] = runC08 }
 
 func runC08(ctx Ctx) int {
 	world.PinClock()
+	if rc, ok := concDispatch("C08", ctx); ok {
+		return rc
+	}
 	run := ev.NewRun("C08")
 	run.Rule = "full product of request validity (valid x4, failing at each validation step x12) x 19 SP ACS metadata shapes (POST, Redirect, Artifact, PAOS, SimpleSign, SOAP, URI, unknown) x 8 requested bindings x 8 storage answers (persist ok/error/empty id/context errors; SP lookup errors); every case executed twice on the same provider (event history of depth 2); plus a ResponseWriter failing at the first Write call / after 100 bytes, followed by the same request on a healthy connection (thorough: Write call 1..3, after 1 / 100 / 700 bytes, every storage answer); a state is (provider storage table, reply); oracle = outcome dichotomy (persisted exactly once + 303 to the login URL of the returned id | nothing persisted + exactly one non-Success SAML Response or a plain HTTP error with text)"
 	run.Assume = []string{"the second request of a pair is byte-identical to the first", "writer failures are injected at Write-call granularity"}
@@ -276,9 +280,86 @@ func runC08(ctx Ctx) int {
 			}
 		}
 	})
+	// concurrent part
+	cb, cs := 1, 60
+	if run.Tier == "thorough" {
+		cb, cs = 2, 900
+	}
+	runConc(run, "C08", cb, cs)
 	run.Sample(cases[0])
 	run.Sample(cases[len(cases)/2])
 	run.Sample(cases[len(cases)-1])
 	finishCapped(run, complete, fmt.Sprintf("%d cases x 2 requests: %d validity classes x %d ACS shapes x %d requested bindings x %d persist answers", len(cases), len(c08Validities), len(c08ACS), len(c08ProtoB), len(c08Persist)))
 	return run.Finish()
 }
+
+// ---- concurrent part: two SSO requests at the same time on ONE provider (controlled scheduler) ----------------------------
+// Requests choose their own IDs, so two requests with the same ID (the same request sent twice, or two service providers
+// using the same counter) are legal. Oracle per request = the sequential one (c08Outcome on the storage calls made on
+// behalf of that request) + the persisted record carries this request's own relay state and application, + the number of
+// stored records equals the number of requests that were sent on to the login UI.
+
+type c08ConcBody struct {
+	Name string
+	P    ssoP
+	App  string // application the request belongs to ("" = rejected requests)
+}
+
+var c08ConcBodies = []c08ConcBody{
+	{"valid-redirect-A", ssoP{}, "app-a"},
+	{"valid-post-A", ssoP{Transport: "post"}, "app-a"},
+	{"valid-signed-redirect-A", ssoP{Sign: "redirect-sha256"}, "app-a"},
+	{"valid-redirect-B-same-request-id", ssoP{Issuer: "b"}, "app-b"},
+	{"rejected-foreign-destination", ssoP{Dest: "host"}, ""},
+	{"rejected-unknown-issuer", ssoP{Issuer: "unregistered"}, ""},
+	{"rejected-expired", ssoP{NOOA: "-1us", Transport: "post"}, ""},
+}
+
+func c08ConcScenarios() []concScenario {
+	var out []concScenario
+	for i := range c08ConcBodies {
+		for j := i; j < len(c08ConcBodies); j++ {
+			bi, bj := c08ConcBodies[i], c08ConcBodies[j]
+			relays := []string{"relay-t0-" + bi.Name, "relay-t1-" + bj.Name}
+			bodies := []c08ConcBody{bi, bj}
+			out = append(out, concScenario{
+				Name: bi.Name + " || " + bj.Name,
+				Build: func() (*world.World, []func() *world.Reply) {
+					p0, p1 := bi.P, bj.P
+					p0.RelayRaw, p1.RelayRaw = &relays[0], &relays[1]
+					w, r0, _ := ssoBuild(p0)
+					_, r1, _ := ssoBuild(p1)
+					return w, []func() *world.Reply{func() *world.Reply { return w.Do(r0) }, func() *world.Reply { return w.Do(r1) }}
+				},
+				Judge: func(w *world.World, reps []*world.Reply, _ *sched.Exec) []concFinding {
+					var fs []concFinding
+					sent := 0
+					for t, rep := range reps {
+						cl, bad := c08Outcome(w, rep, false)
+						for _, b := range bad {
+							fs = append(fs, concFinding{Clause: b, Thread: t, Detail: cl})
+						}
+						for _, c := range rep.Calls {
+							if c.Op == "CreateAuthRequest" && c.Err == "" && (c.Args[3] != relays[t] || c.Args[4] != bodies[t].App) {
+								fs = append(fs, concFinding{Clause: "persisted-record-does-not-describe-this-request", Thread: t, Detail: fmt.Sprint(c.Args)})
+							}
+						}
+						if rep.Status == 303 && strings.HasPrefix(rep.Header.Get("Location"), w.Store.LoginURLBase) {
+							sent++
+						}
+						if (bodies[t].App != "") != (rep.Status == 303) {
+							fs = append(fs, concFinding{Clause: "outcome-differs-from-the-outcome-of-the-same-request-alone", Thread: t, Detail: cl})
+						}
+					}
+					if n := len(w.Store.RequestIDs()); n != sent {
+						fs = append(fs, concFinding{Clause: "stored-records-differ-from-requests-sent-to-login", Thread: -1, Detail: fmt.Sprintf("%d records, %d requests sent on", n, sent)})
+					}
+					return fs
+				},
+			})
+		}
+	}
+	return out
+}
+
+func init() { concRegistry["C08"] = c08ConcScenarios }
